@@ -14,7 +14,8 @@
   Colours are `Nat`s; a style is `(fill?, stroke?, width, alignment)`.
   Outer `none` = a loop bound of `Line::extents` or of `StyledPixelsIterator::next` was exceeded
   ("stuck"); it never happens: `triStyledBoundingBox_total`, `triDraw_total`, `triPixels_total`
-  (EG/Lemmas/JoinsTotalTri.lean), for every triangle and style.
+  (EG/Lemmas/JoinsTotalTri.lean), for every triangle and style. The fuels of the drains (`toList`,
+  `triPixelFuel`) are never used up either: the lists are complete (EG/Lemmas/C01ThickTri.lean).
   `ScanlineIterator::next` is NOT fused, and the model keeps that: `TriScanlines.next` returns the
   successor state together with `None` (a row of the box without any intersection gives `None`, the
   following call goes on with the row after it). `draw_styled`'s `for` loop stops at the first
@@ -430,13 +431,21 @@ def toListFuel : Nat → TriPixels → Option (List (Pt × Nat))
 
 end TriPixels
 
-/-- `triangle.into_styled(style).pixels()` in emission order. Budget: three scanlines per row of at
-most the width of the box plus twice the stroke width (generous; exhausting it would show as a
-correspondence disagreement). -/
+/-- Fuel for draining `pixels()` in the model (one unit per pixel, one to see the final `None`): the
+total length of the scanlines a `for` loop over a fresh `ScanlineIterator` sees. Every pixel of
+`pixels()` is a point of one of those scanlines, so the fuel is never used up
+(`C01Thick.triPixels_eq_run`, EG/Lemmas/C01ThickTri.lean: `triPixels` is the COMPLETE pixel run). -/
+def triPixelFuel (t : Tri) (style : TriStyle) : Option Nat := do
+  let li ← triScanlines t style
+  let lines ← li.toList
+  pure ((lines.map (fun x => (x.1.xe - x.1.xs).toNat)).sum + 1)
+
+/-- `triangle.into_styled(style).pixels()` in emission order (as `collect` / `draw_iter` see it: up to
+the first `None`). -/
 def triPixels (t : Tri) (style : TriStyle) : Option (List (Pt × Nat)) := do
-  let bb ← triStyledBoundingBox t style
+  let fuel ← triPixelFuel t style
   let it ← TriPixels.new t style
-  it.toListFuel (3 * (bb.size.w + 2 * style.strokeWidth + 4) * (bb.size.h + 1) + 2)
+  it.toListFuel fuel
 
 end Joins
 end EG
